@@ -328,6 +328,10 @@ def main():
         code = 0
     # ---- evidence
     n_ob = len(goals)
+    if n_ob == 0 and not out_of_reach:
+        # no contract and no lemma produced a single obligation: the check would "pass" on nothing
+        print("CHECKER-ERROR no obligations were generated for %s" % a.prop)
+        return 3
     n_dis = sum(1 for g in goals if g.status == "unsat")
     by_solver = {}
     for g in goals:
